@@ -208,3 +208,12 @@ Proof.
     split; [constructor; [intros Hin; apply Hn; apply in_or_app; left; exact Hin | exact Ha]|].
     split; [exact Hb|]. intros x [->|Hx]; [intros Hin; apply Hn; apply in_or_app; right; exact Hin | apply Hdis; exact Hx].
 Qed.
+
+Lemma NoDup_app_intro {A} (a b : list A) :
+  NoDup a -> NoDup b -> (forall x, In x a -> ~ In x b) -> NoDup (a ++ b).
+Proof.
+  induction a as [|y a IH]; simpl; intros Ha Hb Hd; [exact Hb|].
+  inversion Ha as [|? ? Hn Ha']; subst. constructor.
+  - intros Hin. apply in_app_or in Hin as [Hin|Hin]; [contradiction | apply (Hd y); [left; reflexivity | exact Hin]].
+  - apply IH; auto.
+Qed.
